@@ -43,6 +43,9 @@ type c35Op struct {
 	Mode   string `json:"mode,omitempty"`  // handler mode for a new stream: block | now | readbody
 	NoSync bool   `json:"nosync,omitempty"`
 	Dep    uint32 `json:"dep,omitempty"`
+	Pad    uint8  `json:"pad,omitempty"`  // HEADERS / DATA: PADDED with this (valid) Pad Length
+	Prio   bool   `json:"prio,omitempty"` // HEADERS: PRIORITY flag, dependency Dep (never the stream itself), weight 5
+	Excl   bool   `json:"excl,omitempty"`
 }
 
 func (o c35Op) String() string {
@@ -61,6 +64,12 @@ func (o c35Op) String() string {
 	}
 	if o.Mode != "" {
 		s += "," + o.Mode
+	}
+	if o.Pad > 0 {
+		s += fmt.Sprintf(",pad=%d", o.Pad)
+	}
+	if o.Prio {
+		s += fmt.Sprintf(",prio=%d/%v", o.Dep, o.Excl)
 	}
 	if o.NoSync {
 		s += ",nosync"
@@ -537,6 +546,20 @@ func c35Gen(r *vkit.Run, i int) *c35Case {
 				op = c35Op{Kind: "priority", ID: pickID(), Dep: uint32(g.Intn(10))}
 			}
 		}
+		// valid padding and priority fields are transparent to the stream rules: any HEADERS / DATA of the
+		// script may carry them (the invalid ones are the flag-space driver's business)
+		if op.Kind == "headers" || op.Kind == "data" {
+			if g.Chance(1, 4) {
+				op.Pad = uint8(g.Range(1, 9))
+			}
+			if op.Kind == "headers" && g.Chance(1, 5) {
+				op.Prio, op.Excl = true, g.Bool()
+				op.Dep = uint32(g.Intn(10))
+				if op.Dep == op.ID {
+					op.Dep = 0
+				}
+			}
+		}
 		exp, shp := rf.classify(k, op)
 		if op.Kind == "release" {
 			if s := rf.streams[op.ID]; s != nil {
@@ -668,13 +691,26 @@ func c35RunCase(r *vkit.Run, cs *c35Case) (out c35Outcome) {
 			if op.Split {
 				o.Split = 3
 			}
+			o.PadLen = op.Pad
+			if op.Prio {
+				o.Priority = &http2.PriorityParam{StreamDep: op.Dep, Exclusive: op.Excl, Weight: 5}
+				r.Count("headers_with_priority_fields", 1)
+			}
+			if op.Pad > 0 {
+				r.Count("headers_padded", 1)
+			}
 			if strings.HasSuffix(shape, "@idle") || strings.HasSuffix(shape, "@over-concurrency-limit") || strings.HasSuffix(shape, "@even-idle") {
 				since[op.ID] = tc.cli.NumEvents()
 			}
 			lastHdr[op.ID] = pendHdr{k, exp, op.Mode}
 			err = tc.cli.WriteHeaders(op.ID, c35Fields(op.HK, k), o)
 		case "data":
-			err = tc.cli.WriteData(op.ID, op.ES, make([]byte, op.N))
+			if op.Pad > 0 {
+				r.Count("data_padded", 1)
+				err = tc.cli.WriteDataPadded(op.ID, op.ES, make([]byte, op.N), int(op.Pad))
+			} else {
+				err = tc.cli.WriteData(op.ID, op.ES, make([]byte, op.N))
+			}
 		case "rst":
 			err = tc.cli.WriteRST(op.ID, http2.ErrCodeCancel)
 		case "priority":
@@ -1014,7 +1050,7 @@ func c35(r *vkit.Run) {
 		r.Evals(1)
 		return
 	}
-	r.SetRule("one case = one connection (net.Pipe, MAX_CONCURRENT_STREAMS=3) fed 3-24 frames over stream ids 0-9 (even, decreasing, reused): HEADERS (3 valid request shapes, 15 malformed ones: missing/empty/unknown/duplicate/misordered pseudo-headers, upper-case names, connection-specific fields, TE!=trailers; trailers with/without END_STREAM, with pseudo-headers; optional CONTINUATION split), DATA 0-100 octets with/without END_STREAM on every state, RST_STREAM, PRIORITY, WINDOW_UPDATE 0/1/2^31-1, HEADERS without END_HEADERS followed by PING, handler completion (handlers block until released, return at once, or read the body). Lockstep: PING round trip after each group (1/4 of legal frames are pipelined with the next). A reference tracker written from RFC 7540 5.1/5.1.1/5.1.2/8.1/8.1.2 classifies every frame LEGAL / REJECT / CONN / EITHER; only the rules named in the statement are REJECT/CONN (even or non-increasing ids - an id whose opening HEADERS was refused with RST_STREAM, a 4xx answer or REFUSED_STREAM counts as used (5.1.1) and later HEADERS with that or a lower id must not be served, while RST_STREAM / WINDOW_UPDATE / PRIORITY on it address a closed stream and must not end the connection; concurrency limit, DATA/HEADERS on closed or half-closed(remote) streams, trailers without END_STREAM or with pseudo-headers, malformed pseudo-headers, connection-specific fields); everything else (idle-stream DATA/RST/WINDOW_UPDATE, stream 0, DATA after a server-side reset) is EITHER. The tracker is self-checked against the server's open-stream count after every group. Independently: recovered serve panics (hook + H2PanicConn) and handler goroutine census after the connection ended. Non-trivial = at least one REJECT/CONN frame was judged; distinct = op list")
+	r.SetRule("one case = one connection (net.Pipe, MAX_CONCURRENT_STREAMS=3) fed 3-24 frames over stream ids 0-9 (even, decreasing, reused): HEADERS (3 valid request shapes, 15 malformed ones: missing/empty/unknown/duplicate/misordered pseudo-headers, upper-case names, connection-specific fields, TE!=trailers; trailers with/without END_STREAM, with pseudo-headers; optional CONTINUATION split), DATA 0-100 octets with/without END_STREAM on every state, RST_STREAM, PRIORITY, WINDOW_UPDATE 0/1/2^31-1, HEADERS without END_HEADERS followed by PING, handler completion (handlers block until released, return at once, or read the body); 1/4 of the HEADERS and DATA frames are PADDED (valid Pad Length 1-8), 1/5 of the HEADERS carry priority fields (dependency 0-9, never the stream itself, exclusive or not). Lockstep: PING round trip after each group (1/4 of legal frames are pipelined with the next). A reference tracker written from RFC 7540 5.1/5.1.1/5.1.2/8.1/8.1.2 classifies every frame LEGAL / REJECT / CONN / EITHER; only the rules named in the statement are REJECT/CONN (even or non-increasing ids - an id whose opening HEADERS was refused with RST_STREAM, a 4xx answer or REFUSED_STREAM counts as used (5.1.1) and later HEADERS with that or a lower id must not be served, while RST_STREAM / WINDOW_UPDATE / PRIORITY on it address a closed stream and must not end the connection; concurrency limit, DATA/HEADERS on closed or half-closed(remote) streams, trailers without END_STREAM or with pseudo-headers, malformed pseudo-headers, connection-specific fields); everything else (idle-stream DATA/RST/WINDOW_UPDATE, stream 0, DATA after a server-side reset) is EITHER. The tracker is self-checked against the server's open-stream count after every group. Independently: recovered serve panics (hook + H2PanicConn) and handler goroutine census after the connection ended. Flag space (c35flags.go; runs first, 8 connections at a time, every step written ahead because a panic on the server's readFrames goroutine - which has no recover - kills the process; bin/check turns that fatal exit into a VIOLATION crash:<panic site> whose witness lists the <= 8 steps on the wire, and replaying it runs them one by one): frames written octet by octet - HEADERS with all 16 combinations of END_STREAM/END_HEADERS/PADDED/PRIORITY (1/3 with the undefined bits 0xd2 on top), header block empty / one octet / complete, 0 or 4 octets of padding present, Pad Length on 0,1,2, the number of padding octets present, payload length-7..+1 and 255 (classes: fits / overlaps the priority fields / exceeds the frame; thorough: every value), payloads of 0,2,3,4,5 octets ending inside the optional fields, priority fields drawn from dependency {0, itself, stream 1, an idle stream} x exclusive bit x weight {0,15,255}, frames without END_HEADERS followed by a CONTINUATION whose flags are drawn from {EH, EH|0x08, EH|0x20, EH|0x29, 0xff}; DATA x {ES,PADDED} x length {0,1,2,6,20} x Pad Length {0,1,len-2..len+1,255}; PRIORITY frames x 6 flag patterns x 8 priority-field kinds and lengths 0,1,4,6; CONTINUATION with no header block in progress x 5 flag patterns; PUSH_PROMISE x {EH,PADDED} x lengths x Pad Length; RST_STREAM, SETTINGS, PING, GOAWAY, WINDOW_UPDATE and two unknown types x 6 flag patterns x lengths 0,1,4,5,6,8,9 (quick: half of them) - each on a fresh (idle) stream and (HEADERS, PRIORITY, PUSH_PROMISE quick: a seeded 1/4-1/2; DATA: all) on an open, a half-closed(remote), a client-reset stream and stream 0. Judged per step: the PING that follows is acknowledged, or the connection ends with GOAWAY or close (never a verdict from time: no reaction within 60 s = incomplete); no recovered serve panic; the process lives; a complete valid request with valid padding / priority fields (not self-dependent) / undefined flag bits (RFC 7540 4.1: MUST be ignored) on a fresh connection must be served and valid DATA on an open stream must not be refused. How invalid padding is refused (stream error, connection error, close) is recorded, not judged: the statement names no padding rule. Non-trivial = at least one REJECT/CONN frame was judged (sequence driver) / every flag-space step; distinct = op list / (context, frames)")
 	r.Assume("x/net http2 Framer+hpack as client codec; a REJECT of a new request may be RST_STREAM, GOAWAY/close or a 4xx answer as long as the handler never runs")
 	if r.Replay != "" {
 		var w struct {
@@ -1023,7 +1059,9 @@ func c35(r *vkit.Run) {
 			CurCase  struct {
 				Case struct {
 					InFlight []struct {
-						FlagStep *c35fStep `json:"flag_step"`
+						Step struct {
+							FlagStep *c35fStep `json:"flag_step"`
+						} `json:"step"`
 					} `json:"in_flight"`
 				} `json:"case"`
 			} `json:"cur_case"` // witness of a crash report: the steps written ahead
@@ -1037,8 +1075,8 @@ func c35(r *vkit.Run) {
 			fsteps = append(fsteps, w.FlagStep)
 		}
 		for _, f := range w.CurCase.Case.InFlight {
-			if f.FlagStep != nil {
-				fsteps = append(fsteps, f.FlagStep)
+			if f.Step.FlagStep != nil {
+				fsteps = append(fsteps, f.Step.FlagStep)
 			}
 		}
 		if len(fsteps) > 0 {
@@ -1078,6 +1116,9 @@ func c35(r *vkit.Run) {
 	c35InFlight(r)
 	if r.Counter("exp:REJECT") == 0 || r.Counter("exp:CONN") == 0 || r.Counter("exp:LEGAL") == 0 {
 		r.Inconclusive("C35: an expectation class was never generated")
+	}
+	if r.Counter("headers_padded") == 0 || r.Counter("headers_with_priority_fields") == 0 || r.Counter("data_padded") == 0 {
+		r.Inconclusive("C35: the sequence driver sent no padded HEADERS / DATA or no HEADERS with priority fields")
 	}
 	if r.Counter("legal_requests_served") == 0 {
 		r.Inconclusive("C35: no legal request was served")
